@@ -354,12 +354,17 @@ def single_bits(x):
     return ctypes.c_uint32.from_buffer(ctypes.c_float(x)).value
 
 
-def st(wall):
+def st(wall, gmtoff=None):
     """struct_time whose broken-down fields read `wall` seconds after 1970-01-01T00:00, tm_isdst=-1
-    (what datetime.timetuple() and time.strptime() produce)"""
+    (what datetime.timetuple() and time.strptime() produce); with gmtoff an 11-field struct_time that
+    also carries tm_gmtoff / tm_zone (what time.localtime() and strptime('%z') produce)"""
     if SYM:
-        return _symdt.SymST(wall)
-    return (datetime.datetime(1970, 1, 1) + datetime.timedelta(seconds=wall)).timetuple()
+        return _symdt.SymST(wall, gmtoff)
+    base = (datetime.datetime(1970, 1, 1) + datetime.timedelta(seconds=wall)).timetuple()
+    if gmtoff is None:
+        return base
+    import time as _time
+    return _time.struct_time(tuple(base) + ('XXX', gmtoff))
 
 
 def untraced(fn, *a):
